@@ -791,7 +791,11 @@ func TestC10(t *testing.T) {
 			f.Ops = append(f.Ops, recipe.FileOp{Op: "NoFormat"})
 			r.Class("noformat_file")
 		}
-		if rapid.IntRange(0, 14).Draw(rt, "big") == 7 {
+		bigOneIn := 14
+		if r.Thorough() {
+			bigOneIn = 74 // (ten times the cases: the same number of big ones)
+		}
+		if rapid.IntRange(0, bigOneIn).Draw(rt, "big") == 7 {
 			// a big first declaration (tens to hundreds of KiB of output): what is written may be written in pieces
 			var stmts []*recipe.Node
 			for k := rapid.SampledFrom([]int{900, 1700, 2100, 3300}).Draw(rt, "bigstmts"); k > 0; k-- {
